@@ -3,6 +3,7 @@ package drive
 import (
 	"bytes"
 	"io"
+	"strings"
 
 	"encoding/json"
 	"fmt"
@@ -20,6 +21,12 @@ func init() { Checks["C04"] = C04 }
 // applyEdit applies the named XzDamage edit to block bi (1-based; 0 for
 // stream-level edits) of the layout. ok=false if the edit does not apply.
 func applyEdit(s *ref.LStream, xs ref.XZStream, edit string, bi int) (ok bool) {
+	// "<edit>#<v>": variant v of how a "padding is not all zero" edit is realised (setPad)
+	variant := 0
+	if k := strings.IndexByte(edit, '#'); k >= 0 {
+		variant = int(edit[k+1] - '0')
+		edit = edit[:k]
+	}
 	other := func(c byte) byte {
 		if c == 1 {
 			return 4
@@ -55,7 +62,11 @@ func applyEdit(s *ref.LStream, xs ref.XZStream, edit string, bi int) (ok bool) {
 		if len(s.IdxPad) == 0 {
 			return false
 		}
-		s.IdxPad[len(s.IdxPad)-1] = 1
+		if variant == 0 {
+			s.IdxPad[len(s.IdxPad)-1] = 1
+		} else if !setPad(s.IdxPad, variant) {
+			return false
+		}
 	case "ipadPlus4":
 		s.IdxPad = append(s.IdxPad, 0, 0, 0, 0)
 		s.Backward++
@@ -116,6 +127,10 @@ func applyEdit(s *ref.LStream, xs ref.XZStream, edit string, bi int) (ok bool) {
 			b.Flags |= 0x01
 		case "filterId":
 			b.FilterID = 3
+		case "filterIdLow21":
+			b.FilterID = []uint64{0x121, 0x2021, 0x200021, 1<<35 | 0x21, 0x4000000000000021}[variant]
+			b.FixHdrPad()
+			reindex(i)
 		case "propLen":
 			b.PropLen = 2
 			b.FilterProps = append(b.FilterProps, 0)
@@ -139,15 +154,29 @@ func applyEdit(s *ref.LStream, xs ref.XZStream, edit string, bi int) (ok bool) {
 			if len(b.HdrPad) == 0 {
 				return false
 			}
-			b.HdrPad[0] = 1
+			if !setPad(b.HdrPad, variant) {
+				return false
+			}
 		case "hpadPlus4":
 			b.HdrPad = append(b.HdrPad, 0, 0, 0, 0)
 			reindex(i)
 		case "hpadPlus4Nonzero":
 			b.HdrPad = append(b.HdrPad, 0, 0, 7, 0)
+			if variant > 0 {
+				b.HdrPad[len(b.HdrPad)-2] = 0
+				if !setPad(b.HdrPad[len(b.HdrPad)-4:], variant) {
+					return false
+				}
+			}
 			reindex(i)
 		case "hpadPlus8LastNonzero":
 			b.HdrPad = append(b.HdrPad, 0, 0, 0, 0, 0, 0, 0, 1)
+			if variant > 0 {
+				b.HdrPad[len(b.HdrPad)-1] = 0
+				if !setPad(b.HdrPad[len(b.HdrPad)-5:], variant) {
+					return false
+				}
+			}
 			reindex(i)
 		case "hcrcB":
 			b.HdrCrcBad = true
@@ -189,7 +218,9 @@ func applyEdit(s *ref.LStream, xs ref.XZStream, edit string, bi int) (ok bool) {
 			if len(b.Pad) == 0 {
 				return false
 			}
-			b.Pad[0] = 1
+			if !setPad(b.Pad, variant) {
+				return false
+			}
 		case "checkValue":
 			if len(b.Check) == 0 {
 				return false
@@ -267,6 +298,36 @@ func readXZPastErrors(data []byte, dictCap int, bufSize int) (out []byte, err er
 	return out, last, p
 }
 
+// setPad makes a padding "not all zero" in one of several ways: the specification only knows
+// padZero = FALSE; which bytes carry what is a dimension of the realisation.  Variants 2..4 are
+// byte patterns that cancel under addition modulo 256, under exclusive-or, or under both.
+func setPad(pad []byte, v int) bool {
+	n := len(pad)
+	switch {
+	case n == 0:
+		return false
+	case v == 0:
+		pad[0] = 1
+	case v == 1:
+		pad[n-1] = 0x80
+	case n < 2:
+		return false
+	case v == 2:
+		pad[0], pad[n-1] = 0x80, 0x80 // sum and xor cancel
+	case v == 3:
+		pad[0], pad[1] = 0x01, 0xff // sum cancels
+	case v == 4 && n >= 3:
+		pad[0], pad[1], pad[2] = 0x55, 0x55, 0x56 // sum cancels over three bytes
+	case v == 4:
+		pad[0], pad[1] = 0x5a, 0x5a // xor cancels
+	default:
+		return false
+	}
+	return true
+}
+
+var padEdits = map[string]bool{"ipadNonzero": true, "hpadNonzero": true, "padNonzero": true, "hpadPlus4Nonzero": true, "hpadPlus8LastNonzero": true}
+
 // C04: a damaged stream never decodes "successfully" to different content.
 func C04(c *hx.Ctx) {
 	c.Rule = "structural part: every single-field edit that TLC classifies from XzDamage (MustReject / Benign / Weak), applied to every block of every base stream (library-, reference- and xz-utils-written; all check types incl. none) with the enclosing CRC-32 re-sealed; byte part: every single-bit flip at every position, bursts <= 32 bits, one-byte insertions and deletions at every offset of every base stream that carries a check; oracle = error, or clean end with identical content; MustReject edits must error; non-trivial = modification outside the check field; edits include high-order-bit changes and non-zero padding in over-long headers; structural edits are read with two buffer sizes (777, 1); a quarter of the byte-level modifications are read on after errors"
@@ -306,9 +367,15 @@ func C04(c *hx.Ctx) {
 	for bi, b := range bases {
 		xr := ref.DecodeXZ(b.Data, ref.XZOpts{})
 		for e := range class {
-			jobs = append(jobs, job{bi, e, 0})
-			for k := 1; k <= len(xr.Streams[0].Blocks); k++ {
-				jobs = append(jobs, job{bi, e, k})
+			vs := []string{e}
+			if padEdits[e] || e == "filterIdLow21" {
+				vs = []string{e, e + "#1", e + "#2", e + "#3", e + "#4"}
+			}
+			for _, ev := range vs {
+				jobs = append(jobs, job{bi, ev, 0})
+				for k := 1; k <= len(xr.Streams[0].Blocks); k++ {
+					jobs = append(jobs, job{bi, ev, k})
+				}
 			}
 		}
 	}
@@ -336,7 +403,7 @@ func C04(c *hx.Ctx) {
 			return
 		}
 		file := ref.Serialize(lay)
-		cl := class[j.edit]
+		cl := class[strings.Split(j.edit, "#")[0]]
 		// trusted base: ref agrees with the classification
 		rx := ref.DecodeXZ(file, ref.XZOpts{})
 		refRejects := rx.Err != nil
